@@ -285,6 +285,11 @@ def sk_sankey(tier):
     for g in ("chain_mixed_dims", "parallel_and_opposing", "with_stock", "self_loop", "no_stocks_scalar_flows", "inner_ring_mixed_dims"):
         for opt in ("default", "exclude_nothing", "exclude_flow", "exclude_flow_after_construction", "exclude_process", "slice_item", "slice_item_by_name", "split_by_dim"):
             out.append({"graph": g, "opt": opt, "table": "as_listed"})
+    # two options that each work alone: a flow split by a dimension for colours *and* sliced to one item of another dimension
+    for g in ("inner_three_dims", "chain_mixed_dims", "inner_ring_mixed_dims"):
+        for sl in ("t", "r"):
+            out.append({"graph": g, "opt": "split_by_dim", "slice": sl, "table": "as_listed"})
+    out += [{"graph": "inner_three_dims", "opt": o, "table": "as_listed"} for o in ("default", "slice_item", "split_by_dim")]
     # settings that must be refused
     for opt in ("refuse_unknown_process", "refuse_unknown_flow", "refuse_slice_unknown_dim", "refuse_no_default_colour", "refuse_colour_dim_not_in_flow", "refuse_colour_list_too_short"):
         out.append({"graph": "chain_mixed_dims", "opt": opt, "table": "as_listed"})
@@ -433,7 +438,12 @@ def _sankey_split(W, sk):
     if target is None:
         return
     colors = {"default": "gray", target.name: ("Element", ["red", "blue", "green"])}
-    out = W.call(lambda: sk_mod.PlotlySankeyPlotter(mfa=mfa, flow_color_dict=colors))
+    kw = {}
+    sl, sl_pos = sk.get("slice"), None
+    if sl is not None:
+        item, sl_pos = W.item_in(S.D[sl], "sl_" + sl)
+        kw["slice_dict"] = {sl: item}
+    out = W.call(lambda: sk_mod.PlotlySankeyPlotter(mfa=mfa, flow_color_dict=colors, **kw))
     W.prove("sankey.split.plotter_constructed", out.kind == "return", detail=repr(out))
     if out.kind != "return":
         return
@@ -451,9 +461,10 @@ def _sankey_split(W, sk):
         return
     k0 = want_labels.index("Fe")
     L = SL.lab(W, target)
-    rest = tuple(l for l in L.letters if l != "e")
+    rest = tuple(l for l in L.letters if l != "e" and l != sl)
+    fixed = {sl: sl_pos} if sl is not None and sl in L.letters else {}
     for j in range(2):
-        tot = W.sum([(l, 0, L.size(l)) for l in rest], lambda idx: L.at({**dict(zip(rest, idx)), "e": j})) if rest else L.at({"e": j})
+        tot = W.sum([(l, 0, L.size(l)) for l in rest], lambda idx: L.at({**dict(zip(rest, idx)), **fixed, "e": j})) if rest else L.at({**fixed, "e": j})
         W.prove(f"sankey.split.link[{E.items[j]}].value_is_item_total", W.num_eq(links["value"][k0 + j], tot))
         W.prove(f"sankey.split.link[{E.items[j]}].colour", links["color"][k0 + j] == ["red", "blue"][j])
 
